@@ -13,7 +13,7 @@ CONSTANTS
   VerifyVersions <- C04VerifyVersions
   PIEditKinds = {"add1", "zero", "copy", "perm", "trunc", "extend"}
   VerifierEditKinds = {"sel", "wire", "pirow", "pimove", "rows", "same", "label"}
-  ProofEditKinds = {"mutate"}
+  ProofEditKinds = {}
   SpliceSets <- NoSplices
   SpliceProgs = {}
   ViolationKinds = {}
